@@ -24,17 +24,18 @@ ArgVals == { <<"int", I(5)>>, <<"int", I(-1)>>, <<"uint", UintV(FromInt(7))>>, <
              <<"string", S(<<104, 105>>)>>, <<"string", S(<<>>)>> }
 NExprs == { X, Bin("==", X, X), Un("!", X), Bin("+", X, X), Call("size", <<X>>), Bin(">", X, Lit(I(0))), CondE(X, Lit(I(1)), Lit(I(2))), Call("type", <<X>>), ListE(<<X, X>>),
             Bin("/", Lit(I(1)), Lit(I(0))), Lit(Bool(TRUE)), Lit(Bool(FALSE)), Lit(Null), Lit(I(42)) }
-Init == mode = "init" /\ expr = Lit(Null) /\ docs = <<>> /\ flagb = FALSE /\ args = <<>> /\ lines = <<>> /\ status = 0
+Init == mode = "init" /\ expr = Lit(Null) /\ docs = <<>> /\ flagb = FALSE /\ args = <<>> /\ lines = <<>> /\ status = <<0, 0>>
 Next == /\ mode = "init"
         /\ \/ (\E e \in Exprs, s \in Streams(LEN), b \in BOOLEAN :
                  mode' = "ndjson" /\ expr' = e /\ docs' = s /\ flagb' = b /\ args' = <<>> /\ lines' = Lines(e, <<>>, s) /\ status' = Worst(e, <<>>, s, b))
            \/ (\E e \in NExprs, a \in ArgVals, b \in BOOLEAN :
-                 mode' = "null" /\ expr' = e /\ docs' = <<>> /\ flagb' = b /\ args' = << <<"x", a[2]>> >> /\ lines' = <<NullInputLine(e, args', b)>> /\ status' = NullInputStatus(e, args', b))
+                 mode' = "null" /\ expr' = e /\ docs' = <<>> /\ flagb' = b /\ args' = << <<"x", a[2]>> >> /\ lines' = <<NullInputLine(e, args', b)>> /\ status' = <<NullInputStatus(e, args', b), NullInputStatus(e, args', b)>>)
 Spec == Init /\ [][Next]_vars
 \* the k-th output line depends only on the k-th document
 Independent == mode = "ndjson" => \A k \in 1..Len(docs) : lines[k] = Lines(expr, args, <<docs[k]>>)[1]
 \* worst status: 3 iff some line is not JSON (when every other status is fixed)
-WorstStatus == mode = "ndjson" => /\ ((\E k \in 1..Len(docs) : ~IsJson(docs[k])) /\ status # StatusIndef => status = 3)
-                                  /\ (status = 0 => \A k \in 1..Len(docs) : DocStatus(expr, args, docs[k], flagb) = 0)
-BooleanStatus == (mode = "null" /\ flagb /\ status # StatusIndef) => status \in {0, 1, 2}
+WorstStatus == mode = "ndjson" => /\ ((\E k \in 1..Len(docs) : ~IsJson(docs[k])) /\ StatusIndef \notin {status[1], status[2]} => status = <<3, 3>>)
+                                  /\ (status[2] = 0 => \A k \in 1..Len(docs) : DocStatus(expr, args, docs[k], flagb) = 0)
+                                  /\ status[1] <= status[2]
+BooleanStatus == (mode = "null" /\ flagb /\ status[1] # StatusIndef) => status[1] \in {0, 1, 2} /\ status[1] = status[2]
 =============================================================================
